@@ -4,6 +4,8 @@ fs.wildcard.match/imatch and fs.glob.match/imatch (from /repo) are compared with
 recursive reference matchers of Glob/ShellSpec.v (extracted); fs.glob(pattern) on real
 trees is compared with the filter of a complete, unpruned walk by the reference matcher;
 count()/remove() must act on exactly that set.
+(vii) count_lines() and count().data on files of every content class (line-end conventions, Unicode-space-only lines,
+invalid UTF-8, NUL bytes, very long lines, ...) against the expectation computed from the BYTES of the matched files.
 
 (v) every entry point that compiles or looks up a pattern (fs.glob.match/imatch/match_any/imatch_any/get_matcher,
 FS.match_glob, fs.glob(...) iterate/count/count_lines/remove, Walker filter_glob/exclude_glob; fs.wildcard.match/imatch/
@@ -1014,6 +1016,214 @@ def run_history_checks(report):
     return cov, bad + bad2
 
 
+# ================================================================================================
+# (vii) count_lines() / count().data over CONTENT CLASSES of the matched files
+#
+# "count(), count_lines() ... act on exactly that set": the lines of a matched file are the lines of its BYTES - the
+# pieces ended by b"\n" (a last piece without b"\n" counts) - and a line is non-blank when bytes.strip() leaves something
+# (ASCII white space only), whatever the bytes are: no decoding, no universal newlines.  count().data is the number of
+# bytes of the matched files.  The expectation is computed here from the bytes written and the reference matcher.
+# ================================================================================================
+CONTENT_CLASSES = [
+    ("plain", b"alpha\nbeta\n\ngamma\n"),
+    ("no-trailing-newline", b"alpha\nbeta"),
+    ("empty", b""),
+    ("newline-only", b"\n"),
+    ("newlines-only", b"\n\n\n"),
+    ("blank-ascii-lines", b" \n\t\n \t \n\x0b\x0c\n x \n"),
+    ("lone-cr", b"alpha\rbeta\rgamma\n"),
+    ("lone-cr-no-newline", b"alpha\rbeta\r"),
+    ("cr-only", b"\r\r\r"),
+    ("crlf", b"alpha\r\nbeta\r\n\r\n"),
+    ("cr-cr-lf", b"alpha\r\r\nbeta\n"),
+    ("lf-cr", b"alpha\n\rbeta\n\r"),
+    ("nbsp-utf8-line", b"x\n\xc2\xa0\n"),
+    ("unicode-space-lines", b"\xe2\x80\x83\n\xe3\x80\x80\n\xe2\x80\x89 \n\xe1\x9a\x80\n"),
+    ("unicode-line-separators", b"a\xe2\x80\xa8b\xe2\x80\xa9c\xc2\x85d\n"),
+    ("separator-controls", b"\x1c\n\x1d\x1e\n\x1f \n"),
+    ("vt-ff-inside", b"a\x0bb\x0cc\n\x0c\n"),
+    ("latin1-text", b"caf\xe9\n\n"),
+    ("latin1-nbsp-line", b"\xa0\n\xa0\xa0\n"),
+    ("invalid-utf8", b"\xff\xfe\x00a\n\x80\x81\n\xc3\n"),
+    ("truncated-utf8-at-end", b"ok\n\xe2\x82"),
+    ("nul-bytes", b"a\x00b\n\x00\n\x00\x00"),
+    ("utf8-bom", b"\xef\xbb\xbf\n\xef\xbb\xbfx\n"),
+    ("utf16", u"a\nb\n".encode("utf-16")),
+    ("long-lines", b"x" * 100000 + b"\n" + b" " * 70000 + b"\n" + b"y" * 9000),
+    ("long-line-cr-at-buffer-edge", b"z" * 8191 + b"\r" + b"w" * 8191 + b"\r\n" + b"\r" * 3 + b"\n"),
+    ("many-lines", b"l\n" * 5000 + b"\n" * 300),
+]
+CONTENT_ALPHABET = [b"\n", b"\n", b"\r", b"\r\n", b" ", b"\t", b"a", b"bc", b"\xc2\xa0", b"\xe9", b"\x00", b"\x0c", b"\x1c",
+                    b"\xe2\x80\xa8", b"\xa0", b"\xff"]
+CONTENT_KINDS = ["mem", "os", "sub", "ro", "tar", "zip", "mount"]
+ASCII_SPACE = b" \t\n\r\x0b\x0c"
+
+
+def byte_line_counts(data):
+    """(lines, non_blank) of a file by its bytes: pieces ended by b'\\n' (+ a last unterminated piece)"""
+    pieces = data.split(b"\n")
+    if pieces[-1] == b"":
+        pieces.pop()
+    return len(pieces), len([1 for p in pieces if any(c not in ASCII_SPACE for c in bytearray(p))])
+
+
+def content_files(tier, seed):
+    """[(path, class name, bytes)]: one file per content class spread over three levels, random-content files, and
+    files the patterns must not select"""
+    rnd = random.Random(seed * 104729 + 1417)
+    out = []
+    dirs = ["", "/logs", "/logs/deep"]
+    for i, (name, data) in enumerate(CONTENT_CLASSES):
+        out.append(("%s/c%02d.log" % (dirs[i % 3], i), name, data))
+    for j in range(60 if tier == "thorough" else 12):
+        data = b"".join(rnd.choice(CONTENT_ALPHABET) for _ in range(rnd.randint(0, 40)))
+        out.append(("%s/r%02d.log" % (dirs[j % 3], j), "random", data))
+    out.append(("/other.txt", "not-matched", b"not\rmatched\n"))
+    out.append(("/logs/deep/other.txt", "not-matched", b"\xe9\n"))
+    return out
+
+
+def content_patterns(files):
+    pats = ["*.log", "**/*.log", "logs/*.log", "logs/deep/*.log", "*/*/*.log", "c0?.log", "**/c1?.log", "logs/*", "*.txt",
+            "**/r*.log", "nothing*"]
+    pats += [p.lstrip("/") for p, cls, _d in files if cls != "not-matched"]      # one pattern per file: pins the class
+    return pats
+
+
+def content_build(kind, files):
+    """-> (filesystem holding the files, cleanup)"""
+    import shutil
+    import tempfile
+    from fs.memoryfs import MemoryFS
+
+    def fill(f, base=""):
+        f.makedirs(base + "/logs/deep", recreate=True)
+        for p, _c, data in files:
+            f.writebytes(base + p, data)
+    if kind in ("mem", "sub", "ro", "mount"):
+        m = MemoryFS()
+        if kind == "sub":
+            fill(m, "/x/y")
+            return m.opendir("x/y"), m.close
+        fill(m)
+        if kind == "ro":
+            from fs.wrap import read_only
+            return read_only(m), m.close
+        if kind == "mount":
+            from fs.mountfs import MountFS
+            mf = MountFS()
+            mf.mount("m", m)
+            return mf.opendir("m"), mf.close
+        return m, m.close
+    d = tempfile.mkdtemp(prefix="pyfs2verif_c14c_")
+    if kind == "os":
+        from fs.osfs import OSFS
+        f = OSFS(d)
+        fill(f)
+    elif kind == "tar":
+        from fs.tarfs import TarFS
+        with TarFS(d + "/t.tar", write=True) as t:
+            fill(t)
+        f = TarFS(d + "/t.tar")
+    elif kind == "zip":
+        from fs.zipfs import ZipFS
+        with ZipFS(d + "/t.zip", write=True) as z:
+            fill(z)
+        f = ZipFS(d + "/t.zip")
+    else:
+        raise ValueError(kind)
+    return f, lambda: (f.close(), shutil.rmtree(d, ignore_errors=True))
+
+
+def content_expect(files, pats):
+    """per pattern: (matched file paths, (lines, non_blank), data bytes) from the reference matcher and the bytes"""
+    lines = ["glob glob 1 %s %s 0" % (tok(P), tok(p)) for P in pats for p, _c, _d in files]
+    out = common.run_model_parallel(lines)
+    exp = {}
+    i = 0
+    for P in pats:
+        sel = []
+        for p, _c, data in files:
+            if not out[i].startswith("S"):
+                raise RuntimeError("glob reference undefined for %r %r: %s" % (P, p, out[i]))
+            if out[i] == "ST":
+                sel.append((p, data))
+            i += 1
+        counts = [byte_line_counts(d) for _p, d in sel]
+        exp[P] = (sorted(p for p, _d in sel), (sum(c[0] for c in counts), sum(c[1] for c in counts)), sum(len(d) for _p, d in sel))
+    return exp
+
+
+def content_data_judged(P):
+    return P[-1:] not in ("*", "?", "]", "/")
+
+
+def content_observe(f, P):
+    try:
+        c = f.glob(P).count_lines()
+        got_lines = (c.lines, c.non_blank)
+    except Exception as ex:  # noqa
+        got_lines = "raised %s: %s" % (type(ex).__name__, ex)
+    try:
+        c = f.glob(P).count()
+        # a pattern ending in a wildcard also matches 'dir/' one level up (the recorded finding "Globber matches directories
+        # only with a trailing slash appended"), whose size the backend decides: bytes judged for the other patterns
+        got_count = (c.files, c.data if content_data_judged(P) else None)
+    except Exception as ex:  # noqa
+        got_count = "raised %s: %s" % (type(ex).__name__, ex)
+    return got_lines, got_count
+
+
+def run_content_checks(tier, seed, kinds=None, files=None, pats=None):
+    """(vii): returns (coverage dict, [violation payload])"""
+    import time
+    t0 = time.time()
+    files = files if files is not None else content_files(tier, seed)
+    pats = pats if pats is not None else content_patterns(files)
+    exp = content_expect(files, pats)
+    cls_of = dict((p, c) for p, c, _d in files)
+    bad, n = [], 0
+    for kind in (kinds or CONTENT_KINDS):
+        try:
+            f, cleanup = content_build(kind, files)
+        except Exception as ex:  # noqa
+            bad.append(dict(level="count-content", filesystem=kind, pattern="", path="", is_dir=False, classes=[],
+                            entry="building the filesystem", implementation="raised %s: %s" % (type(ex).__name__, ex),
+                            reference="no exception"))
+            continue
+        try:
+            for P in pats:
+                matched, want_lines, want_data = exp[P]
+                got_lines, got_count = content_observe(f, P)
+                n += 2
+                for entry, got, want in (("fs.glob().count_lines", got_lines, want_lines),
+                                         ("fs.glob().count (files, data)", got_count,
+                                          (len(matched), want_data if content_data_judged(P) else None))):
+                    if got != want:
+                        bad.append(dict(level="count-content", filesystem=kind, pattern=P, path=(matched or [""])[0],
+                                        is_dir=False, classes=sorted(set(cls_of[p] for p in matched)), matched_files=matched,
+                                        entry=entry, implementation=got, reference=want))
+        finally:
+            try:
+                cleanup()
+            except Exception:  # noqa
+                pass
+    # smallest disagreements first: a pattern that selects one file names the content class
+    bad.sort(key=lambda b: (len(b.get("matched_files", [])), b["filesystem"] != "mem", b["pattern"]))
+    cov = dict(count_content_classes=[c for c, _d in CONTENT_CLASSES] + ["random over %d byte tokens" % len(CONTENT_ALPHABET)],
+               count_content_files=len(files), count_content_patterns=len(pats), count_content_filesystems=list(kinds or CONTENT_KINDS),
+               count_content_evaluations=n, count_content_disagreements=len(bad),
+               count_content_rule="files of every content class (line ends \\n, none, lone \\r, \\r\\n, \\r\\r\\n, \\n\\r; empty; "
+                                  "ASCII-blank lines; UTF-8 NBSP / Unicode-space-only lines; Unicode line separators; FS/GS/RS/US "
+                                  "controls; latin-1; invalid and truncated UTF-8; NUL bytes; BOM; UTF-16; lines longer than "
+                                  "the io buffers; 5000 lines; random byte strings) under patterns selecting one file, one "
+                                  "directory level, and everything, on MemoryFS/OSFS/SubFS/read_only/TarFS/ZipFS/MountFS: "
+                                  "count_lines() == (pieces ended by b'\\n', those with a non-ASCII-space byte) summed over the "
+                                  "files the reference matcher selects; count() == (number of those files, their bytes)",
+               count_content_wall_s=round(time.time() - t0, 2))
+    return cov, bad
+
+
 def run(report, forced=None):
     import fs.wildcard as W
     import fs.glob as G
@@ -1155,6 +1365,18 @@ def run(report, forced=None):
                               theorem="Props/C14.v C14_cache_transparent (every cached value is the one computed for its "
                                       "key, in every history) + reference Glob/ShellSpec.v glob_spec / wild_spec / wild_any, "
                                       "Walk/WalkOpts.v", **b))
+    # (vii) count_lines() / count().data over content classes of the matched files
+    ccov, cbad = run_content_checks(report.tier, report.seed) if forced is None else ({}, [])
+    total += ccov.get("count_content_evaluations", 0)
+    cseen = set()
+    for b in cbad:
+        sig = (b["entry"], tuple(b["classes"])[:1] if len(b.get("matched_files", [])) == 1 else "set")
+        if sig in cseen or len(cseen) >= 8:
+            continue
+        cseen.add(sig)
+        report.violation(dict(kind="count-differs-from-the-bytes-of-the-matched-files",
+                              theorem="Props/C14.v (count()/count_lines() act on exactly the matched set); lines of a file = "
+                                      "its b'\\n'-ended byte pieces, non-blank = bytes.strip() non-empty", **b))
     # classification
     seen = set()
     for b in bad:
@@ -1176,9 +1398,10 @@ def run(report, forced=None):
                     "list-level entry points: see cache_history_rule, list_entry_rule",
                samples=[dict(pattern="a*", path="/ab", is_dir=False), dict(pattern="**/b/", path="/a/b", is_dir=True)],
                disagreements_checked=len(bad), globber_cases=globber_checked,
-               traces_validated_against_impl=total - len(bad) - len(hbad), exhaustive=True,
+               traces_validated_against_impl=total - len(bad) - len(hbad) - len(cbad), exhaustive=True,
                exhaustive_scope="pattern/path spaces stated in rule; Globber trees sampled")
     cov.update(hcov)
+    cov.update(ccov)
     cov["pending_findings_seen"] = sorted(pending_seen)
     if forced is None:
         # the regex translation itself: model text == code text, regex semantics vs CPython re, matchers
@@ -1283,6 +1506,16 @@ def replay(report, path):
         return replay_history(d)
     if d.get("level") in ("list-entry", "list-tree"):
         return replay_list(d)
+    if d.get("level") == "count-content":
+        files = content_files(d.get("tier", "quick"), d.get("seed", 0))
+        _cov, bad = run_content_checks(d.get("tier", "quick"), d.get("seed", 0), kinds=[d["filesystem"]], files=files,
+                                       pats=[d["pattern"]])
+        for b in bad:
+            print("%s on %s, pattern %r (content classes %s)\n  implementation: %r\n  from the bytes:  %r" % (
+                b["entry"], b["filesystem"], b["pattern"], b["classes"], b["implementation"], b["reference"]))
+        if not bad:
+            print("count_lines() and count() agree with the bytes of the matched files")
+        return 1 if bad else 0
     p, path_, is_dir = d["pattern"], d["path"], d.get("is_dir", False)
     impl = G.match(p, path_ + ("/" if is_dir else ""))
     spec = common.run_model(["glob glob 1 %s %s %s" % (tok(p), tok(path_), "1" if is_dir else "0")])[0]
